@@ -36,7 +36,7 @@ func genItem(t *rapid.T, v6 bool) Item {
 	case 5:
 		it.HasPort, it.Port = true, rapid.SampledFrom(garbagePort).Draw(t, "port-garbage")
 	default:
-		it.HasPort, it.Port = true, rapid.SampledFrom([]string{"67", "547", "1", "65535", "44480", "6767"}).Draw(t, "port")
+		it.HasPort, it.Port = true, rapid.SampledFrom([]string{"67", "547", "1", "65535", "44480", "6767", "0", "00", "068"}).Draw(t, "port")
 	}
 	if it.Addr != "" && rapid.IntRange(0, 4).Draw(t, "bracket") == 0 {
 		it.Bracket = true
